@@ -180,8 +180,13 @@ def run(ctx):
                                       "ops": [["check"], ["used"], ["valex"], ["example"]]}))
             meta.append({"wires": wires, "roottypes": roottypes, "missing": missing, "root_refs": root_refs, "types": texts, "cyclic": any(i in r for i, r in enumerate(refs)) or len(allrefs) > 0})
     mod = vc.model_parallel("recursion_model", mlines)
+    # the same graphs from their TEXTS, inside the extracted model: scanner -> loader -> tnode_of_node -> check_all (Schema/RecursionE2E.v)
+    hx = lambda t: t.encode("utf-8").hex()
+    elines = ["0 ; %s ; %s" % (hx(md["types"][0]), " ; ".join("%s %s" % (hx(name(i)), hx(t)) for i, t in enumerate(md["types"]))) for md in meta]
+    e2e = vc.model_parallel("rec_e2e_model", elines)
+    ne2e = 0
     imp = vc.impl_isolating(["schema"], ilines, 4)
-    for ml, il, m, o, md in zip(mlines, ilines, mod, imp, meta):
+    for ml, il, m, o, md, ev in zip(mlines, ilines, mod, imp, meta, e2e):
         ctx.evaluations += 1
         r = json.loads(o)
         if len(r) != 4:
@@ -218,6 +223,14 @@ def run(ctx):
                     "root only" if md["roottypes"] else "every schema", md["types"][:4]), "c09rec:" + il, case, case=case)
         elif code != mv and not md["roottypes"] and len(ctx.violations) < 40:
             ctx.report("recursion verdict: Check says %s, Coq checker model says %s" % (chk, mv), "c09model:" + il, case, no_input=True)
+        if not md["roottypes"]:
+            # text -> graph inside Coq: must agree with the wire abstraction the generator wrote, and with the library
+            ne2e += 1
+            if ev != mv and len(ctx.violations) < 40:
+                ctx.report("machinery/abstraction: the model run from the schema texts says %s, the model run on the generator's graph says %s; types %r" % (ev, mv, md["types"][:4]),
+                           "c09e2e:" + il, dict(case, e2e=ev), no_input=True)
+            elif ev != code and code in ("ok", "E104") and code == want and len(ctx.violations) < 40:
+                ctx.report("recursion verdict: Check says %s, the Coq pipeline from the texts (scanner, loader, graph, check_all) says %s; types %r" % (chk, ev, md["types"][:4]), "c09e2elib:" + il, dict(case, e2e=ev), case=case)
         # used user types: exactly the names in the root text, each once
         if code == "ok" or True:
             got = used[2:].split(",") if used.startswith("U:") and len(used) > 2 else ([] if used.startswith("U:") else None)
@@ -254,6 +267,7 @@ def run(ctx):
                     break
     ctx.extra["used_types_cases"] = len(ulines)
     ctx.extra["graphs"] = len(cases)
+    ctx.extra["graphs_run_from_their_texts_inside_the_model"] = ne2e
     ctx.samples.append({"types": meta[-1]["types"], "check": json.loads(imp[-1])[0]})
     # reference forms outside the object-type generator: or lists of literal types with {type: "@T"} (diamonds are not cycles), keys optional by default, rule-sets, a root whose
     # file name looks like a type name
